@@ -2,7 +2,7 @@
 from sa.sym import Engine, show, show_cond, subterms, PathLimit, C, is_const, DEFAULT_FOLD_ONLY
 from sa.facts import field_writes
 from .common import *
-from .tables import rows, is_true, is_false
+from .tables import rows, is_true, is_false, pin
 
 EXPLANATION = (
     "Static clauses of 'making a legal move yields the rules' successor': the effect summary of each move kind's "
@@ -138,7 +138,7 @@ def table_ep_target(ctx):
         if v == 0:
             continue
         # non-empty row: must be a pawn double step of one colour
-        col = conds.get(('discr', ('p', 2)))
+        col = pin(conds.get(('discr', ('p', 2))))
         cname = {cd['White']: 'White', cd['Black']: 'Black'}.get(col)
         piece_ok = conds.get(('discr', ('p', 1))) == pawn
         if cname is None or not piece_ok:
@@ -287,7 +287,7 @@ def r3_en_passant(ctx):
         mover_piece = ('fld', ('fld', P, 'Some.0'), '0')
         mover_col = ('fld', ('fld', P, 'Some.0'), '1')
         conds = dict(o.conds)
-        col = cd.get(conds.get(('discr', mover_col)))
+        col = cd.get(pin(conds.get(('discr', mover_col))))
         if col is None:
             ctx.ob(rule, name, 'Ok path without colour test', False, found=[show_cond(c) for c in o.conds])
             continue
